@@ -14,15 +14,24 @@ def registry():
     R = Registry('raw_ctr')
     R.file = 'src/raw_ctr.c'
 
-    for name, fn in (('increment_be', 'be'), ('increment_le', 'le')):
+    # The counter field p[0..n) read as an integer v (big or little endian).  Two equivalent statements of "v becomes
+    # (v + a) mod 256**n": the readable one (`value`, proved for the leaf functions) and the LEFT-ALIGNED one used by callers,
+    # aligned(v) = v * 2**(128-8n) as a 128-bit word, where the modulus is the natural wrap of 128-bit addition:
+    #     aligned(v') == aligned(v) + a * 2**(128-8n)   (mod 2**128)      [v, v' < 256**n; x -> x * 2**(128-8n) is injective there]
+    R.define('ctrval(p, n, big)', 'be(p, n, 16) if big else le(p, n, 16)')
+    R.define('aligned(p, n, big)', 'shl(ctrval(p, n, big), 128 - 8 * n, 128)')
+    R.define('unit(n)', 'shl(1, 128 - 8 * n, 128)')
+    R.define('outside(t, prefix_len, n)', 't < prefix_len or t >= prefix_len + n')
+    for name, big in (('increment_be', 'True'), ('increment_le', 'False')):
         R.fn(name, regions={'pCounter': 'u8[counter_len]'}, modifies=['pCounter'],
              requires={'len': '1 <= counter_len and counter_len <= 16', 'amount': 'amount <= 255'},
-             ensures={'value': '%s(pCounter, counter_len, 16) == (old(%s(pCounter, counter_len, 16)) + amount) %% pow2(8 * counter_len, 128)' % (fn, fn)},
+             ensures={'spec_value': 'ctrval(pCounter, counter_len, %s) == (old(ctrval(pCounter, counter_len, %s)) + amount) %% pow2(8 * counter_len, 128)' % (big, big),
+                      'aligned': 'aligned(pCounter, counter_len, %s) == u128(old(aligned(pCounter, counter_len, %s)) + amount * unit(counter_len))' % (big, big)},
+             # complete case split over the counter length (1..16): every byte position is then a literal
+             configs=[{'name': 'len%d' % n, 'set': {'counter_len': n}} for n in range(1, 17)],
              loops={0: dict(unroll=16)})
 
     # ------------------------------------------------------------------ counter blocks
-    R.define('ctrval(p, n, big)', 'be(p, n, 16) if big else le(p, n, 16)')
-    R.define('outside(t, prefix_len, n)', 't < prefix_len or t >= prefix_len + n')
     # complete case split: block_len in {8, 16} (every cipher's BLOCK_SIZE), prefix_len in [0, block_len)
     cfgs_ccb = [{'name': '%s%d.p%d' % (e, bl, p), 'funcptr': {'increment': 'increment_' + e}, 'set': {'block_len': bl, 'prefix_len': p}}
                 for e in ('be', 'le') for bl in (16, 8) for p in range(bl)]
@@ -33,6 +42,7 @@ def registry():
                    'increment': 'increment == increment_be or increment == increment_le'},
          ensures={'template': 'not null(result) ==> all(outside(k % block_len, prefix_len, counter_len) ==> '
                               'result[k] == counter_block0[k % block_len] for k in range(8 * block_len))',
-                  'counters': 'not null(result) ==> all(ctrval(result + j * block_len + prefix_len, counter_len, big) == '
-                              '(ctrval(counter_block0 + prefix_len, counter_len, big) + j) % pow2(8 * counter_len, 128) for j in range(8))'})
+                  'block0': 'not null(result) ==> all(result[k] == counter_block0[k] for k in range(block_len))',
+                  'counters': 'not null(result) ==> all(aligned(result + j * block_len + prefix_len, counter_len, big) == '
+                              'u128(aligned(result + prefix_len, counter_len, big) + j * unit(counter_len)) for j in range(8))'})
     return R
